@@ -13,13 +13,15 @@ import re
 from .. import tlc
 
 DEF_TEXT = ("(Definition/Aaa, (Red, Blue, (Square, Triangle))), (Definition/Bbb/#, (Age/#, Green)), "
-            "(Definition/Ccc/#, (Distance/#, Circle)), (Definition/Ddd, (Action))")
+            "(Definition/Ccc/#, (Distance/#, Circle)), (Definition/Ddd, (Action)), "
+            "(Definition/Eee/#, (Speed/# mph, Square))")        # placeholder followed by a unit inside the definition
 USES = [  # (Def form, Def-expand form)
     ("Def/Aaa", "(Def-expand/Aaa, (Blue, Red, (Square, Triangle)))"),
     ("Def/Bbb/4", "(Def-expand/Bbb/4, (Age/4, Green))"),
     ("Def/Ccc/3 m", "(Def-expand/Ccc/3 m, (Circle, Distance/3 m))"),
     ("Def/aaa", "(Def-expand/aaa, (Blue, Red, (Square, Triangle)))"),
     ("Def/Ddd", "(Def-expand/Ddd, (Action))"),
+    ("Def/Eee/3", "(Def-expand/Eee/3, (Square, Speed/3 mph))"),
 ]
 SKEL = {1: ["Item, {0}", "({0}, Item)", "((Item, {0}), Event)", "{0}"],
         2: ["{0}, {1}", "({0}, Item), ({1}, Event)", "(({0}), Item), {1}", "(Item, ({0}, ({1}, Event)))"]}
@@ -353,7 +355,7 @@ def run(ctx):
         nsk = len(SKEL[k])
         variants = range(nsk) if not quick else [(n + ctx.seed) % nsk]
         for sk in variants:
-            u0 = (n + sk + ctx.seed) % len(USES)
+            u0 = (n // 3 + sk * 5 + ctx.seed) % len(USES)      # (n + sk would always be even in quick)
             uses = [USES[(u0 + i * 2) % len(USES)] for i in range(k)]
             if k == 2 and uses[0][0].casefold() == uses[1][0].casefold():      # two uses of one definition would be a repeated tag
                 uses[1] = USES[(u0 + 1) % len(USES)]
